@@ -229,7 +229,7 @@ func C14(args []string) error {
 				if err := c.Send(lx.Envelope(id, op, cn)); err != nil {
 					return nil, nil, false, err
 				}
-				m, err := c.Recv(5 * time.Second)
+				m, err := recvPatient(c, 5*time.Second)
 				if err != nil {
 					return nil, nil, false, err
 				}
